@@ -18,6 +18,7 @@ import (
 	"path/filepath"
 	"regexp"
 	"sort"
+	"strconv"
 	"strings"
 	"time"
 )
@@ -68,7 +69,7 @@ func c01Obs(res *C01RunResult) (string, []string) {
 		ff := j.Fqname
 		ci := -1
 		if m := c01ChunkRe.FindStringSubmatch(ff); m != nil {
-			fmt.Sscan(m[1], &ci)
+			ci, _ = strconv.Atoi(m[1]) // zero padded ("chnk08"): not Sscan, which reads a leading 0 as octal
 			ff = ff[:len(ff)-len(m[0])]
 		}
 		fj := byFork[ff]
